@@ -115,11 +115,12 @@ mod verif_kani {
     }
 
     /// ANY well-formed VecStorage: a vector of symbolic length whose occupied slots are initialised
-    fn any_vec() -> (VecStorage<u16>, [Option<u16>; 4]) {
+    fn any_vec() -> (VecStorage<u16>, [Option<u16>; 4]) { any_vec_b(N_IDX as usize) }
+    fn any_vec_b(max_len: usize) -> (VecStorage<u16>, [Option<u16>; 4]) {
         let mut s = VecStorage::<u16>::default();
         let mut model: [Option<u16>; 4] = [None; 4];
         let len: usize = kani::any();
-        kani::assume(len <= N_IDX as usize);
+        kani::assume(len <= max_len);
         let mut i = 0usize;
         while i < N_IDX as usize {
             if i < len {
@@ -138,11 +139,12 @@ mod verif_kani {
     }
 
     /// ANY well-formed DefaultVecStorage: unoccupied slots inside the vector hold Default
-    fn any_default_vec() -> (DefaultVecStorage<u16>, [Option<u16>; 4]) {
+    fn any_default_vec() -> (DefaultVecStorage<u16>, [Option<u16>; 4]) { any_default_vec_b(N_IDX as usize) }
+    fn any_default_vec_b(max_len: usize) -> (DefaultVecStorage<u16>, [Option<u16>; 4]) {
         let mut s = DefaultVecStorage::<u16>::default();
         let mut model: [Option<u16>; 4] = [None; 4];
         let len: usize = kani::any();
-        kani::assume(len <= N_IDX as usize);
+        kani::assume(len <= max_len);
         let mut i = 0usize;
         while i < N_IDX as usize {
             if i < len {
@@ -231,6 +233,45 @@ mod verif_kani {
         check_all(&s, &model);
         step(&mut s, &mut model);
         // occupied slots hold the component, unoccupied slots inside the vector hold Default
+        let sl = s.as_slice();
+        let mut i = 0usize;
+        while i < 4 {
+            match model[i] {
+                Some(v) => { assert!(i < sl.len()); assert!(sl[i] == v); }
+                None => { if i < sl.len() { assert!(sl[i] == 0); } }
+            }
+            i += 1;
+        }
+        unsafe { s.clean(mask_of(&model)) };
+    }
+
+    /// one insert or remove over indices < 3 (quick tier)
+    fn step_small<S: UnprotectedStorage<u16>>(s: &mut S, model: &mut [Option<u16>; 4]) {
+        let id: u32 = kani::any();
+        kani::assume(id < 3);
+        let op: u8 = kani::any();
+        kani::assume(op < 2);
+        match (op, model[id as usize]) {
+            (0, None) => { let v: u16 = kani::any(); unsafe { s.insert(id, v) }; model[id as usize] = Some(v); }
+            (1, Some(v)) => { let got = unsafe { s.remove(id) }; assert!(got == v); model[id as usize] = None; }
+            _ => {}
+        }
+        check_all(&*s, &*model);
+    }
+
+    #[kani::proof]
+    #[kani::unwind(6)]
+    fn vec_step_small() {
+        let (mut s, mut model) = any_vec_b(2);
+        step_small(&mut s, &mut model);
+        unsafe { s.clean(mask_of(&model)) };
+    }
+
+    #[kani::proof]
+    #[kani::unwind(6)]
+    fn default_vec_step_small() {
+        let (mut s, mut model) = any_default_vec_b(2);
+        step_small(&mut s, &mut model);
         let sl = s.as_slice();
         let mut i = 0usize;
         while i < 4 {
